@@ -27,6 +27,7 @@ import vlib
 import lang_build
 import lang_lib
 import lang_gen as G
+import c18_net
 
 LEVEL = "proof"
 
@@ -56,6 +57,7 @@ def prebuild():
     lang_build.build_eval()
     lang_build.build_eval(ndebug=True)
     lang_build.build_eval(san=True)
+    c18_net.prebuild()
 
 
 def model_class(line):
@@ -331,6 +333,8 @@ def run(ctx):
     ctx.log("evaluation-level errors (assertion and NDEBUG builds): %d programs, %d disagreements" % (n4, b4))
     b3 = planner_support(ctx, pend, builds["h_eval"][0], builds["h_eval_san"][0])
     ctx.log("support: planner with assertions / sanitizers: %d findings" % b3)
+    c18_net.run(ctx, ctx.tier)  # network side: steered sat_core / mixed-network histories on ASan+UBSan+LeakSanitizer builds
+    ctx.log("support: network API histories under sanitizers: %s" % (cov.get("network_sanitizers", {}).get("findings"),))
 
     def search(res):
         return bool(ctx.violations) or bool(pend.hit)
@@ -342,13 +346,17 @@ def run(ctx):
     cov["pending_fixes_hit"] = pend.hit
     cov["rule"] = ("every prefix at a token boundary of the smallest example programs (25 random boundaries of the others), random byte "
                    "prefixes, byte mutations, 107 pathological inputs (nesting 1 .. 10^5 around the limit of 1000, repetitions up to 2*10^5, "
-                   "unterminated literals, numerals around LONG_MAX, 0xFF / NUL / high bytes); non-trivial = longer than 8 bytes")
+                   "flat operator chains of 10 .. 3*10^5 operators around the limit (alone, inside parentheses, after unary operators), "
+                   "unterminated literals, numerals around LONG_MAX, 0xFF / NUL / high bytes); programs with modeling errors run through the real planner in the "
+                   "assertion and NDEBUG builds: division by zero, non-linear and ill-typed expressions, unknown names, time-point arithmetic outside "
+                   "difference logic, cyclic inheritance and enum unions, object variables of classes without instances, same-named predicates, "
+                   "long chains; non-trivial = longer than 8 bytes")
     cov["trusted_base"] += [
         "harness/lang_common.h: fork per case, alarm() wall-clock bound (5 s), RLIMIT_AS memory bound (2 GB; an exhausted bound counts as HANG)",
         "AddressSanitizer / UndefinedBehaviorSanitizer / LeakSanitizer of g++ 12: used as SUPPORT for 'no invalid memory access / no leak'; they observe the runs made, nothing more",
-        "riddle::parser::max_depth = 1000 mirrored as Parser.MAX_DEPTH (the nesting cases 998..1001 check the mirror)",
+        "riddle::parser::max_depth = 1000 mirrored as Parser.MAX_DEPTH, the operators of one chain counted like frames (the nesting and chain cases 996..1001 check the mirror)",
     ]
-    ctx.assumptions += ["memory safety, absence of leaks and bounded real time are not provable about a Gallina model: the theorems cover termination with a classified outcome of the lexer and parser on every input; the network-level assertions (sat_core, theories, solver) belong to C07-C10 and are only exercised here by the example problems",
+    ctx.assumptions += ["memory safety, absence of leaks and bounded real time are not provable about a Gallina model: the theorems cover termination with a classified outcome of the lexer and parser on every input; the network-level assertions (sat_core, theories, solver) belong to C07-C10; here precondition-respecting sat_core and mixed-network API histories are replayed on ASan+UBSan+LeakSanitizer builds (tools/c18_net.py) as support",
                         "stack depth: the parser's recursion is bounded by max_depth frames (theorem: Err ETooDeep beyond it); that 1000 frames fit the stack is observed (-O0 and ASan builds), not proved"]
 
 
